@@ -584,14 +584,17 @@ class ChirpZTransformExecutor:
 
 
 def _prepare_czt_basis(N, M, K, shift, alpha, dtype, norm=False):
+    # a shift offsets both the input and output coordinates, exactly as in the
+    # matrix DFT: the kernel is exp(-2i pi alpha (n-shift)(m-shift)), so that
+    # czt2/iczt2 with equal shifts are inverses and agree with dft2/idft2
     m = fftrange(M, dtype=dtype)
+    n = fftrange(N, dtype=dtype)
     if shift != 0:
-        m += shift
+        m -= shift
+        n -= shift
 
     prefix = -1j * np.pi
     a = np.exp(prefix * m*m * alpha)
-
-    n = fftrange(N, dtype=dtype)
     b = np.exp(prefix * n*n * alpha)
 
     # maybe can replace with empty for minor performance gains?
@@ -599,9 +602,8 @@ def _prepare_czt_basis(N, M, K, shift, alpha, dtype, norm=False):
 
     # need to populate h piecewise, see Jurling2014 48c, 48d
     # offset between the origin samples (index n//2) of the input and output
-    start = -(N // 2 - M // 2) + shift
-    # arange(float, float) can produce one element too many or too few with a
-    # fractional shift, so offset an integer range instead
+    # (the shift cancels in the difference of the coordinates, m - n)
+    start = -(N // 2 - M // 2)
     j = np.arange(M, dtype=dtype) - start
     # j is an index variable
     h[:M] = np.pi * (j * j)
